@@ -116,6 +116,29 @@ def run_case(c):
     return rec
 
 
+def run_chain(c):
+    """A chain of N unit resistors: every current-flow quantity has a closed form."""
+    from pyunicorn.core import ResNetwork
+    N = c["N"]
+    R = np.zeros((N, N))
+    idx = np.arange(N - 1)
+    R[idx, idx + 1] = R[idx + 1, idx] = 1.0
+    rec = dict(c)
+    o = {"exc": ""}
+    try:
+        net = ResNetwork(R, silence_level=3)
+        o["vcfb"] = [enc.num(net.vertex_current_flow_betweenness(a), 10**4) for a in range(N)]
+        E = np.asarray(net.edge_current_flow_betweenness())
+        o["ecfb_chain"] = [enc.num(E[k, k + 1], 10**4) for k in range(N - 1)]
+        pairs = [(0, N - 1), (0, 1), (N // 3, N // 2), (N - 2, 1), (N // 2, N // 2)]
+        o["er_pairs"] = [[int(a), int(b)] for a, b in pairs]
+        o["er"] = [enc.num(net.effective_resistance(a, b)) for a, b in pairs]
+    except Exception as ex:
+        o["exc"] = type(ex).__name__
+    rec["obs"] = o
+    return rec
+
+
 def _nontrivial(rec):
     return rec["n"] >= 3
 
@@ -135,6 +158,10 @@ def main(ctx):
     ctx.extra["scope"] = open(os.path.join(os.path.dirname(__file__), "..", "spec", cfg + ".cfg")).read().split()
     recs = ctx.run_cases("props.c18.run_case", cases)
     ctx.validate("Val_C18", "Val_C18", recs, nontrivial=_nontrivial)
+    # large circuits: chains of unit resistors (closed forms)
+    chains = [{"case": "chain%d" % N, "N": N} for N in ((5, 150) if ctx.tier == "quick" else (3, 5, 12, 129, 150, 300))]
+    crecs = ctx.run_cases("props.c18.run_chain", chains)
+    ctx.validate("Val_C18big", "Val_C18big", crecs, stage="Val_C18big", nontrivial=lambda r: True)
 
 
 def replay(ctx, rep):
